@@ -148,6 +148,39 @@ type shChan struct {
 type shFunc struct {
 	F func() `@Ident`
 }
+
+// a union whose members are a struct production and a NON-struct type implemented by user code (Parseable); the same type as a
+// plain field
+type shValue interface{ shValue() }
+type shNumber float64
+
+func (shNumber) shValue() {}
+func (n *shNumber) Parse(lex *lexer.PeekingLexer) error {
+	t := lex.Peek()
+	f, err := strconv.ParseFloat(t.Value, 64)
+	if err != nil {
+		return participle.NextMatch
+	}
+	lex.Next()
+	*n = shNumber(f)
+	return nil
+}
+
+type shName struct {
+	Name string `@Ident`
+}
+
+func (shName) shValue() {}
+
+type shUnionScalar struct {
+	Key   string  `@Ident "="`
+	Value shValue `@@`
+}
+type shScalarField struct {
+	N  shNumber   `@@`
+	Ns []shNumber `( "," @@ )*`
+}
+
 type shIface struct {
 	I interface{ Foo() } `@@`
 }
@@ -487,6 +520,31 @@ func shapeRun(args []string) error {
 	run("ptrptr-struct-scalar", func() error { _, err := participle.Build[shPtrPtrScalar](); return err })
 	run("embedded-pointer-cycle", func() error { _, err := participle.Build[ShEmbValue](); return err })
 	run("embedded-pointer-bad-tag", func() error { _, err := participle.Build[shEmbPtrBadTag](); return err })
+	run("union-nonstruct-parseable", func() error {
+		p, err := participle.Build[shUnionScalar](participle.Union[shValue](shNumber(0), shName{}))
+		if err != nil {
+			return err
+		}
+		v, err := p.ParseString("", "a = 1.5")
+		if err != nil || v.Value != shNumber(1.5) {
+			return fmt.Errorf("union with a non-struct Parseable member: %+v %v", v, err)
+		}
+		if v, err = p.ParseString("", "a = b"); err != nil || v.Value != (shName{Name: "b"}) {
+			return fmt.Errorf("union with a non-struct Parseable member: %+v %v", v, err)
+		}
+		return nil
+	})
+	run("nonstruct-parseable-field", func() error {
+		p, err := participle.Build[shScalarField]()
+		if err != nil {
+			return err
+		}
+		v, err := p.ParseString("", "1 , 2.5")
+		if err != nil || v.N != 1 || len(v.Ns) != 1 || v.Ns[0] != 2.5 {
+			return fmt.Errorf("non-struct Parseable fields: %+v %v", v, err)
+		}
+		return nil
+	})
 	run("embedded-foreign-tag", func() error {
 		p, err := participle.Build[shEmbForeignTag]()
 		if err != nil {
